@@ -6,6 +6,7 @@ pub mod c01;
 pub mod c02;
 pub mod c03;
 pub mod c04;
+pub mod c05;
 pub mod c06;
 pub mod c07;
 pub mod c08;
@@ -25,7 +26,7 @@ pub mod c20;
 
 pub fn all() -> Vec<PropDef> {
     #[allow(unused_mut)]
-    let mut v = vec![c01::def(), c02::def(), c03::def(), c04::def(), c06::def(), c07::def(), c08::def(), c09::def(), c10::def(), c11::def(), c12::def(), c13::def(), c14::def(), c15::def(), c16::def(), c18::def(), c19::def(), c20::def()];
+    let mut v = vec![c01::def(), c02::def(), c03::def(), c04::def(), c05::def(), c06::def(), c07::def(), c08::def(), c09::def(), c10::def(), c11::def(), c12::def(), c13::def(), c14::def(), c15::def(), c16::def(), c18::def(), c19::def(), c20::def()];
     #[cfg(feature = "quinn")]
     {
         let pos = v.iter().position(|p| p.id == "C18").unwrap_or(v.len());
